@@ -14,7 +14,7 @@ pub const ENTRY: Entry = Entry {
     variants: &["batch"],
     level: "model_checking",
     rule: "explicit-state closure (stateright BFS, 1 and 16 threads compared) after the real init of built-in models on every \
-           supported interface kind: actions = {sleep, wake, clear, set_pixel, set_orientation, scroll region, scroll offset, tearing}; \
+           supported interface kind: actions = {sleep, wake, clear, set_pixel, set_orientation, scroll region, scroll offset, tearing} plus sleep / wake with the k-th low-level operation of the call failing (k < 4, at most two failing calls per history: 'last *successful*' clause); \
            every transition replays the history on a fresh display with virtual time advanced only by the delay source (worst case). \
            Key = (is_sleeping(), private driver state via hook, controller sleep state). Invariants in every state: is_sleeping() == \
            controller sleep state == (last of init/sleep/wake was sleep); every call that sent sleep-in/out returned >= 120 ms after \
@@ -45,10 +45,16 @@ impl Sys for Sys13 {
         self.roots.len()
     }
     fn actions(&self, _r: usize) -> Vec<u32> {
-        (0..8).collect()
+        // 0..8 fault-free calls; 8..16: sleep (even) / wake (odd) with the k-th low-level operation of
+        // the call failing, k = (a - 8) / 2
+        (0..16).collect()
     }
     fn max_depth(&self) -> usize {
         5
+    }
+    fn enabled(&self, _root: usize, hist: &[u32]) -> bool {
+        // deviation bound: at most two failing calls per history
+        hist.iter().filter(|a| **a >= 8).count() <= 2
     }
     fn exec(&self, root: usize, hist: &[u32]) -> (Vec<u64>, Option<String>) {
         let cfg = self.roots[root];
@@ -58,7 +64,35 @@ impl Sys for Sys13 {
         }
         let mut want = false;
         let mut bad = None;
+        let mut diverged = false; // a failed call may have delivered its command: controller state unknown
         for (i, &a) in hist.iter().enumerate() {
+            if a >= 8 {
+                // failing sleep / wake
+                let op = if a % 2 == 0 { Op::Sleep } else { Op::Wake };
+                let k = ((a - 8) / 2) as u64;
+                let base = rig.ops();
+                rig.set_faults(&[crate::env::Fault { at: base + k, mode: crate::env::FaultMode::Unchanged }]);
+                let out = rig.apply(&op);
+                rig.set_faults(&[]);
+                let fired = rig.bd.borrow().failed_ops.iter().any(|f| f.0 == base + k);
+                match (&out, fired) {
+                    (Outcome::Err(_), true) => {
+                        diverged = true;
+                        if i + 1 == hist.len() {
+                            e1::flag();
+                        }
+                    } // flag must stay as it was
+                    (Outcome::Ok, false) => match op {
+                        Op::Sleep => want = true,
+                        _ => want = false,
+                    },
+                    (o, f) => {
+                        bad = Some(format!("{}/fault-outcome|fault fired: {f}, outcome {o:?}", op.name()));
+                        break;
+                    }
+                }
+                continue;
+            }
             let op = action_op(a);
             let n_slp = rig.ctl.slp_events.len();
             let out = rig.apply(&op);
@@ -95,9 +129,9 @@ impl Sys for Sys13 {
         if bad.is_none() {
             if d.is_sleeping() != want {
                 bad = Some(format!("sleep-flag/history|is_sleeping() = {} but the last of init/sleep/wake says {}", d.is_sleeping(), want));
-            } else if rig.ctl.sleeping != want {
+            } else if !diverged && rig.ctl.sleeping != want {
                 bad = Some(format!("sleep-flag/controller|controller sleep state {} but is_sleeping() = {}", rig.ctl.sleeping, d.is_sleeping()));
-            } else {
+            } else if !diverged {
                 for w in rig.ctl.slp_events.windows(2) {
                     if w[1].1 - w[0].1 < 120_000_000 {
                         bad = Some(format!("spacing/too-close|commands {:02x} and {:02x} only {} us apart", w[0].0, w[1].0, (w[1].1 - w[0].1) / 1000));
@@ -106,7 +140,7 @@ impl Sys for Sys13 {
             }
         }
         let st = d.state();
-        let key = vec![d.is_sleeping() as u64, rig.ctl.sleeping as u64, st.orient as u64, st.madctl as u64, st.sleeping as u64];
+        let key = vec![d.is_sleeping() as u64, rig.ctl.sleeping as u64, st.orient as u64, st.madctl as u64, st.sleeping as u64, diverged as u64];
         (key, bad)
     }
 }
@@ -152,12 +186,11 @@ fn run(ctx: &Ctx) -> Part {
             acc.sample(json!({"root": sys.roots[0], "history": ["Sleep", "Sleep", "Wake", "Clear"]}));
             if let Some((root, hist, msg)) = c.counterexample {
                 let (sig, text) = msg.split_once('|').unwrap_or(("c13", &msg));
-                let ops: Vec<Op> = hist.iter().map(|a| action_op(*a)).collect();
                 acc.violation(Violation {
                     prop: ctx.prop.clone(),
                     sig: sig.to_string(),
                     msg: format!("{text} [shortest counterexample: {} call(s) after init]", hist.len()),
-                    case: json!({"kind": "c13", "variant": ctx.variant, "cfg": sys.roots[root], "history": ops, "actions": hist}),
+                    case: json!({"kind": "c13", "variant": ctx.variant, "cfg": sys.roots[root], "history": hist.iter().map(|a| if *a >= 8 { format!("{} with low-level operation {} failing", if a % 2 == 0 { "sleep" } else { "wake" }, (a - 8) / 2) } else { format!("{:?}", action_op(*a)) }).collect::<Vec<_>>(), "actions": hist}),
                 });
             }
         }
@@ -174,7 +207,7 @@ pub fn replay(case: &serde_json::Value) -> i32 {
     let actions: Vec<u32> = serde_json::from_value(case["actions"].clone()).unwrap();
     let sys = Sys13 { roots: vec![cfg] };
     let (key, bad) = sys.exec(0, &actions);
-    println!("history {:?} -> key {key:?}", actions.iter().map(|a| action_op(*a)).collect::<Vec<_>>());
+    println!("history (action codes) {actions:?} -> key {key:?}");
     match bad {
         Some(m) => {
             println!("REPLAY: {m}");
